@@ -194,8 +194,9 @@ func filterOpsByVersionTime(ops []*operation.AnchoredOperation, timeStr string) 
 		return nil, fmt.Errorf("failed to parse version time[%s]: %w", timeStr, err)
 	}
 
+	// a version time before the epoch is before every operation (converted to uint64 it would be after all of them)
 	for _, op := range ops {
-		if op.TransactionTime <= uint64(vt.Unix()) {
+		if vt.Unix() >= 0 && op.TransactionTime <= uint64(vt.Unix()) {
 			filteredOps = append(filteredOps, op)
 		}
 	}
